@@ -131,6 +131,40 @@ Proof.
     rewrite (D1 T1 d), (D2 T2 d). rewrite (expect_t_ext (final_docs disk h1) (final_docs disk h2) fuel p Ec). tauto.
 Qed.
 
+Lemma run_pinv : forall cf pick disk rank fuel h w, good pick disk rank fuel h ->
+  (purge_closed cf = true \/ no_close h) ->
+  run cf pick disk fuel h = Ok w -> PInv disk w.
+Proof.
+  intros cf pick disk rank fuel h w G Hp E. destruct (gd_resp _ _ _ _ _ G) as [Hd Hh].
+  apply (run_pub cf pick disk rank fuel (good_pick_in _ _ _ _ _ G) (gd_rank _ _ _ _ _ G) Hd h
+           (cur disk no_bufs) no_bufs empty_world w); auto.
+  - apply WInv_empty. exact Hd.
+  - apply PInv_empty.
+  - exact (gd_client _ _ _ _ _ G).
+Qed.
+
+(* no stale and no missing diagnostics: what was last published for a current file is what a
+   fresh server computes from the final documents, and every open document has been published.
+   Holds for the code with the proposed close_file patch, and for the code as it is on histories
+   without didClose (see [closed_buffer_refuted]). *)
+Theorem diagnostics_fresh : forall cf pick disk rank fuel h w, good pick disk rank fuel h ->
+  (purge_closed cf = true \/ no_close h) ->
+  run cf pick disk fuel h = Ok w ->
+  (forall p ds, w_pub w p = Some ds -> live_id w p <> None ->
+     same_diags ds (expect (final_docs disk h) fuel p)) /\
+  (forall p, bufs_after no_bufs h p <> None -> w_pub w p <> None).
+Proof.
+  intros cf pick disk rank fuel h w G Hp E.
+  pose proof (run_pinv cf pick disk rank fuel h w G Hp E) as [A P1 P6 PO].
+  split.
+  - intros p ds Hds Hl. destruct (live_id w p) as [f|] eqn:El; [|congruence].
+    destruct (P1 p ds f Hds El) as [[]|[a [Ha [Hs ->]]]].
+    destruct (analysis_fresh cf pick disk rank fuel h w G E p f a El Ha) as [Hc [_ Hd]].
+    unfold expect. rewrite Hc. unfold pdiags. intros d. rewrite !in_app_iff. rewrite (Hd Hs d). tauto.
+  - intros p Hb. destruct (run_winv cf pick disk rank fuel h G) as [w' [E' W]]. rewrite E in E'. inv E'.
+    destruct W as [_ _ Ho _]. apply Ho in Hb. destruct Hb as [id Hid]. apply (PO p id Hid).
+Qed.
+
 (* the hypotheses are satisfiable by a history with an import, a close and a type error *)
 Example good_example : good idpick disk1 rank1 2 hist1.
 Proof.
